@@ -157,6 +157,10 @@ class SymExec:
                     isn = self.is_none(left)
                     if isn is not None:
                         return const(isn if isinstance(op, ast.Is) else not isn)
+                if isinstance(op, (ast.Is, ast.IsNot)) and left[0] == 'const' and right[0] == 'const' \
+                        and (left[1] is None or isinstance(left[1], bool)) and (right[1] is None or isinstance(right[1], bool)):
+                    same_ = left[1] is right[1]
+                    return const(same_ if isinstance(op, ast.Is) else not same_)
                 if isinstance(op, (ast.Eq, ast.NotEq)) and left[0] == 'const' and right[0] == 'const':
                     return const((left[1] == right[1]) if isinstance(op, ast.Eq) else (left[1] != right[1]))
                 return ('cmp', type(op).__name__, left, right)
